@@ -790,6 +790,10 @@ type CtorCase struct {
 	SubUndef bool   `json:"sub_undef"`
 	Nonces   []int  `json:"nonces"` // lengths given through successive WithNonce; -1 = WithEmptyNonce (invocation)
 	Order    int    `json:"order"`
+	// RootSub: delegation.Root called with an option list that ALSO contains WithSubject (a list re-used from a New
+	// call): 1 another principal, 2 the undefined DID, 3 the issuer itself, at position RootSubAt of the list
+	RootSub   int `json:"root_sub,omitempty"`
+	RootSubAt int `json:"root_sub_at,omitempty"`
 }
 
 func runCtor(c *h.Ctx, cc CtorCase) {
@@ -816,7 +820,15 @@ func runCtor(c *h.Ctx, cc CtorCase) {
 		}
 		var d *delegation.Token
 		if cc.Order%3 == 0 {
+			if cc.RootSub > 0 {
+				so := delegation.WithSubject([]did.DID{keys.Principal(2).DID, did.Undef, pick(cc.IssUndef, 0)}[(cc.RootSub-1)%3])
+				at := cc.RootSubAt % (len(opts) + 1)
+				opts = append(append(append([]delegation.Option{}, opts[:at]...), so), opts[at:]...)
+			}
 			d, err = delegation.Root(pick(cc.IssUndef, 0), pick(cc.AudUndef, 1), command.MustParse("/foo"), policy.Policy{}, opts...)
+			if err == nil && d != nil && d.Subject() != d.Issuer() {
+				c.Fail("C10/constructor/root-subject", "delegation.Root returned a token whose subject (%s) is not its issuer (%s): a root delegation is issued by its subject, whatever options came along (WithSubject variant %d at position %d)", d.Subject(), d.Issuer(), cc.RootSub, cc.RootSubAt)
+			}
 		} else {
 			if !cc.SubUndef {
 				opts = append(opts, delegation.WithSubject(keys.Principal(2).DID))
@@ -867,7 +879,7 @@ func runCtor(c *h.Ctx, cc CtorCase) {
 var ctorProp = h.Define(P, "constructor", func(t *rapid.T) CtorCase {
 	return CtorCase{Type: rapid.SampledFrom([]string{"dlg", "inv"}).Draw(t, "type"),
 		IssUndef: rapid.IntRange(0, 3).Draw(t, "iu") == 0, AudUndef: rapid.IntRange(0, 3).Draw(t, "au") == 0, SubUndef: rapid.IntRange(0, 3).Draw(t, "su") == 0,
-		Nonces: rapid.SliceOfN(rapid.SampledFrom([]int{-1, 0, 1, 11, 12, 13, 32}), 0, 3).Draw(t, "nonces"), Order: rapid.IntRange(0, 5).Draw(t, "order")}
+		Nonces: rapid.SliceOfN(rapid.SampledFrom([]int{-1, 0, 1, 11, 12, 13, 32}), 0, 3).Draw(t, "nonces"), Order: rapid.IntRange(0, 5).Draw(t, "order"), RootSub: rapid.IntRange(0, 3).Draw(t, "rootsub"), RootSubAt: rapid.IntRange(0, 4).Draw(t, "rootsubat")}
 }, runCtor)
 
 func TestConstructors(t *testing.T) { ctorProp.Check(t) }
